@@ -29,6 +29,7 @@ import EG.Lemmas.ThickGeoHole
 import EG.Lemmas.ThickGeoBandMetric
 import EG.Lemmas.ThickGeoMid
 import EG.Lemmas.ThickGeoDiscountMetric
+import EG.Lemmas.ThickGeoMidMetric
 import EG.Lemmas.ThickTotal
 namespace EG.C17.Stroke
 open EG
@@ -400,5 +401,93 @@ theorem thick_middle_width_partial (l : Line) (hnd : l.start ≠ l.stop) (w : Na
 
 example : (⟨2, 2⟩ : Pt) ≠ ⟨6, 4⟩ ∧ (1 : Nat) ≤ 5 ∧ (5 : Nat) ≤ 2147483647 ∧
     InMiddle ⟨⟨2, 2⟩, ⟨6, 4⟩⟩ ⟨4, 3⟩ := by unfold InMiddle; decide
+
+/-! #### Where the full extent `w - 2` is proved
+
+`ThickMiddleWidth` has no slack in general: on the lines (0,0)-(D,1) with `w = 2 D` the extent is
+`D (N - 2) + 2` (in `cross` units, `N = w` parallels) against the demanded `(w - 2) L`, a margin of
+`(1 + 1/D)/L` px - 0.052 px for D = 20, 0.0084 px for D = 120, tending to 0 - because the middle slab
+holds the single minor step of every parallel: of the outermost left parallel it shows only the low
+phase, of the outermost right one only the high phase, so almost two full bands are lost. No failure
+exists for max(|dx|,|dy|) <= 60, w <= 40 (all octants), for min <= 8, max <= 120, w <= 6 max/min + 10,
+for max <= 40, w <= 400 (searched on the real code), nor in the oracle's runs. Three regimes in which
+the claim follows from the band structure and the accumulator alone: -/
+
+/-- **Axis-parallel and diagonal lines of every width are at least `w - 1` pixels wide at their
+middle** (`ThickMiddleWidth`, the oracle's predicate `C17:thick-middle-width`): all pixels have
+`cross` a multiple of `max(|dx|,|dy|)`, the outermost parallels are exactly `D (N - 1)` apart, and
+`D + d + 2 D N > 2 w L`. -/
+theorem thick_middle_width_axis_parallel_or_diagonal (l : Line) (hnd : l.start ≠ l.stop) (w : Nat)
+    (hw : 1 ≤ w) (hw2 : w ≤ 2147483647)
+    (hdir : (strokeDir l).x = 0 ∨ (strokeDir l).y = 0 ∨
+      (strokeDir l).x.natAbs = (strokeDir l).y.natAbs) : ThickMiddleWidth l w := by
+  intro ps h
+  by_cases hw3 : 3 ≤ w
+  · have hreg : (Thick.ctxOf l).d = 0 ∨ (Thick.ctxOf l).d = (Thick.ctxOf l).D := by
+      rw [← minorLen_eq, ← majorLen_eq]
+      unfold majorLen minorLen
+      omega
+    obtain ⟨p, hp, q, hq, m1, m2, hext⟩ :=
+      Thick.thickPoints_mid_extent_axis l hnd w (by omega) hw2 ps h hreg
+    obtain ⟨g1, g2, g3⟩ := mid_metric l p q w m1 m2 hext
+    exact ⟨p, hp, q, hq, g1, g2, fun _ => g3⟩
+  · obtain ⟨p, hp, q, hq, g1, g2, _⟩ := thick_middle_width_partial l hnd w hw hw2 ps h
+    exact ⟨p, hp, q, hq, g1, g2, fun hc => absurd hc hw3⟩
+
+example : (⟨3, -2⟩ : Pt) ≠ ⟨-4, 5⟩ ∧
+    (strokeDir ⟨⟨3, -2⟩, ⟨-4, 5⟩⟩).x.natAbs = (strokeDir ⟨⟨3, -2⟩, ⟨-4, 5⟩⟩).y.natAbs ∧
+    (1 : Nat) ≤ 40 ∧ (40 : Nat) ≤ 2147483647 := by decide
+
+/-- **Strokes with enough `Extra` parallels are at least `w - 1` pixels wide at their middle**:
+if `Y = 5 D + d - 2 (D - d) E` is at most `4 L` (`Y <= 0` or `Y^2 <= 16 L2`; `E` = the number of `Extra`
+parallels, `Thick.ExtraParallels l w E`), `ThickMiddleWidth` holds: every `Extra` parallel adds a full
+band to the stroke but only `2 d` to the accumulator. (For slopes around 1/2 two `Extra` parallels
+suffice, i.e. widths from about 10.) -/
+theorem thick_middle_width_extras_partial (l : Line) (hnd : l.start ≠ l.stop) (w : Nat) (hw : 1 ≤ w)
+    (hw2 : w ≤ 2147483647) (E : Int) (hE : Thick.ExtraParallels l w E)
+    (hguard : 5 * majorLen l + minorLen l - 2 * (majorLen l - minorLen l) * E ≤ 0 ∨
+      (5 * majorLen l + minorLen l - 2 * (majorLen l - minorLen l) * E) ^ 2 ≤ 16 * L2 l) :
+    ThickMiddleWidth l w := by
+  intro ps h
+  by_cases hw3 : 3 ≤ w
+  · have hsq : ∀ t : Int, t ^ 2 = t * t := fun t => by ring
+    rw [majorLen_eq, minorLen_eq, L2_eq, hsq] at hguard
+    obtain ⟨p, hp, q, hq, m1, m2, hext⟩ :=
+      Thick.thickPoints_mid_extent_extras l hnd w (by omega) hw2 ps h E hE hguard
+    obtain ⟨g1, g2, g3⟩ := mid_metric l p q w m1 m2 hext
+    exact ⟨p, hp, q, hq, g1, g2, fun _ => g3⟩
+  · obtain ⟨p, hp, q, hq, g1, g2, _⟩ := thick_middle_width_partial l hnd w hw hw2 ps h
+    exact ⟨p, hp, q, hq, g1, g2, fun hc => absurd hc hw3⟩
+
+/-- The guard of `thick_middle_width_extras_partial` on the line (0,0)-(7,3), width 12: 2 `Extra`
+parallels, `Y = 35 + 3 - 2 * 4 * 2 = 22`, `22^2 = 484 <= 16 * 58 = 928`. -/
+example : ((Thick.ParallelsIterator.new ⟨⟨0, 0⟩, ⟨7, 3⟩⟩ 12 .none).map
+    (fun it => Thick.exCount (Thick.runPar 100 it))) = some 2 ∧
+    (5 * majorLen ⟨⟨0, 0⟩, ⟨7, 3⟩⟩ + minorLen ⟨⟨0, 0⟩, ⟨7, 3⟩⟩ -
+      2 * (majorLen ⟨⟨0, 0⟩, ⟨7, 3⟩⟩ - minorLen ⟨⟨0, 0⟩, ⟨7, 3⟩⟩) * 2) ^ 2 ≤
+      16 * L2 ⟨⟨0, 0⟩, ⟨7, 3⟩⟩ := by decide
+
+/-- **Flat thin strokes, `(w - 2) min(|dx|,|dy|)^2 <= 2 max(|dx|,|dy|)`, are at least `w - 1` pixels
+wide at their middle**: there are at least `w` parallels, and the extent of the middle slab in
+`2 cross` is an even number above `2 D (N - 2)`. This regime contains the tightest lines known,
+(0,0)-(D,1) with `w = 2 D`. -/
+theorem thick_middle_width_flat_partial (l : Line) (hnd : l.start ≠ l.stop) (w : Nat) (hw : 1 ≤ w)
+    (hw2 : w ≤ 2147483647)
+    (hguard : ((w : Int) - 2) * minorLen l ^ 2 ≤ 2 * majorLen l) : ThickMiddleWidth l w := by
+  intro ps h
+  by_cases hw3 : 3 ≤ w
+  · have hsq : ∀ t : Int, t ^ 2 = t * t := fun t => by ring
+    rw [majorLen_eq, minorLen_eq, hsq] at hguard
+    obtain ⟨p, hp, q, hq, m1, m2, hext⟩ :=
+      Thick.thickPoints_mid_extent_flat l hnd w (by omega) hw2 ps h hguard
+    obtain ⟨g1, g2, g3⟩ := mid_metric l p q w m1 m2 hext
+    exact ⟨p, hp, q, hq, g1, g2, fun _ => g3⟩
+  · obtain ⟨p, hp, q, hq, g1, g2, _⟩ := thick_middle_width_partial l hnd w hw hw2 ps h
+    exact ⟨p, hp, q, hq, g1, g2, fun hc => absurd hc hw3⟩
+
+/-- The tightest line of the searched range, (0,0)-(20,1) width 40 (margin 0.052 px), is in the flat
+regime: `38 * 1 <= 40`. -/
+example : (⟨0, 0⟩ : Pt) ≠ ⟨20, 1⟩ ∧
+    ((40 : Int) - 2) * minorLen ⟨⟨0, 0⟩, ⟨20, 1⟩⟩ ^ 2 ≤ 2 * majorLen ⟨⟨0, 0⟩, ⟨20, 1⟩⟩ := by decide
 
 end EG.C17.Stroke
